@@ -32,7 +32,7 @@ func (cc *compCase) nextSite() int { cc.site++; return cc.site }
 // placeholders at the top level of the file
 func genComponentFile(c *core.Ctx, idx int) (compDef, []model.Stmt) {
 	r := c.Rng
-	def := compDef{name: []string{"components/card", "components/box.v2", "ui/panel", "components/list.min", "components/odd.tw"}[idx%5]}
+	def := compDef{name: []string{"components/card", "components/box.v2", "ui/panel", "components/list.min", "components/odd.tw", "ui/card~v2", "components/item~"}[idx%7]}
 	nArgs := r.Intn(3)
 	for a := 0; a < nArgs; a++ {
 		def.args = append(def.args, fmt.Sprintf("p%d", a))
@@ -79,7 +79,8 @@ func (cc *compCase) genUse(c *core.Ctx, def compDef, scopeVar string, forceNoSlo
 	if strings.HasPrefix(name, "components/") && r.Intn(2) == 0 {
 		name = "~" + strings.TrimPrefix(name, "components/")
 	}
-	use := model.Component{Name: name, Gap: []string{"", "", " ", "\n  ", "\r\n\t"}[r.Intn(5)]}
+	use := model.Component{Name: name, GapFirst: []string{"", "", " ", "\n  ", "\r\n\t"}[r.Intn(5)],
+		Gap: []string{"", "", " ", "\n  ", "\r\n\t", " {{-- between slots --}} ", "\n{{-- a --}}\n{{-- b --}}\n"}[r.Intn(7)]}
 	if len(def.args) > 0 {
 		ol := model.ObjLit{}
 		for ai, a := range def.args {
@@ -256,6 +257,7 @@ func init() {
 					cc := genComponentTree(c, i)
 					def := cc.comps[0]
 					fault := i % 5
+					emptyBody := (i/5)%2 == 1 // the faulty slot is passed with an empty body
 					page := cc.pages[0]
 					short := def.name[strings.LastIndex(def.name, "/")+1:]
 					var bad model.Component
@@ -279,6 +281,11 @@ func init() {
 							return
 						}
 						bad = model.Component{Name: def.name, Slots: []model.SlotBody{{Name: "", Body: []model.Stmt{model.Text{S: "x"}}}}}
+					}
+					if emptyBody {
+						for k := range bad.Slots {
+							bad.Slots[k].Body = []model.Stmt{}
+						}
 					}
 					cc.tree.files[page] = append(cc.tree.files[page], model.Text{S: " then "}, bad, model.Text{S: "."})
 					files := cc.tree.sources(model.Style{Layout: model.SpaceLayout})
